@@ -64,7 +64,7 @@ ESigs ==
     Sig("ref",   "E", "(&~1)",  <<"E">>),
     Sig("cond",  "E", "(~1 ? ~2 : ~3)", <<"E", "E", "E">>),
     Sig("force", "E", "(~1!)", <<"E">>),
-    Sig("member",    "E", "(~1.$x)",  <<"E">>),
+    Sig("member",    "E", "((~1).$x)",  <<"E">>),
     Sig("optmember", "E", "(~1?.$x)", <<"E">>),
     Sig("index", "E", "(~1[~2])", <<"E", "E">>),
     Sig("call0", "E", "(~1())", <<"E">>),
@@ -133,8 +133,8 @@ SSigs == {
     Sig("while",   "S", "while ~1 { ~2 }", <<"E", "S">>),
     Sig("for",     "S", "for $x in ~1 { ~2 }", <<"E", "S">>),
     Sig("forindex","S", "for $x, $x in ~1 { ~2 }", <<"E", "S">>),
-    Sig("switch",  "S", "switch ~1 { case ~2: ~3 default: ~4 }", <<"E", "E", "S", "S">>),
-    Sig("switch2", "S", "switch ~1 { case ~2: ~3 case ~4: ~5 }", <<"E", "E", "S", "E", "S">>),
+    Sig("switch",  "S", "switch ~1 { case ~2: ~3\ndefault: ~4 }", <<"E", "E", "S", "S">>),
+    Sig("switch2", "S", "switch ~1 { case ~2: ~3\ncase ~4: ~5 }", <<"E", "E", "S", "E", "S">>),
     Sig("emit",    "S", "emit $T($x: ~1)", <<"E">>),
     Sig("let",     "S", "let $x = ~1", <<"E">>),
     Sig("var",     "S", "var $x = ~1", <<"E">>),
@@ -183,7 +183,8 @@ QSigs == {   \* composite-like declarations: top level and nested
     Sig("resourceC2", "Q", "~1 resource $T: $T, $T { ~2 }", <<"X", "M">>),
     Sig("enum",     "Q", "~1 enum $T: $T { ~2 }", <<"X", "N">>),
     Sig("event",    "Q", "~1 event $T(~2)", <<"X", "P">>),
-    Sig("attachment", "Q", "~1 attachment $T for ~2 { ~3 }", <<"X", "T", "M">>),
+    Sig("attachment", "Q", "~1 attachment $T for $T { ~2 }", <<"X", "M">>),
+    Sig("attachmentQ", "Q", "~1 attachment $T for $T.$T { ~2 }", <<"X", "M">>),
     Sig("attachmentC", "Q", "~1 attachment $T for $T: $T { ~2 }", <<"X", "M">>),
     Sig("structI",  "Q", "~1 struct interface $T { ~2 }", <<"X", "I">>),
     Sig("resourceI","Q", "~1 resource interface $T: $T { ~2 }", <<"X", "I">>),
@@ -219,7 +220,7 @@ DSigs == {
     Sig("tx-params",  "D", "transaction(~1) { }", <<"P">>),
     Sig("tx-full",  "D", "transaction($x: $T) { let $x: ~1\nvar $x: $T\nprepare($x: &$T) { ~2 } pre { ~3 } execute { ~4 } post { ~5 } }",
                          <<"A", "S", "K", "S", "K">>),
-    Sig("tx-prepost", "D", "transaction { pre { ~1 } post { ~2 } }", <<"K", "K">>),
+    Sig("tx-prepost", "D", "transaction { prepare() { } pre { ~1 } post { ~2 } }", <<"K", "K">>),
     Sig("pragma",   "D", "#~1", <<"E">>) }
 DAtoms == { Sig("tx0", "D", "transaction { }", <<>>),
             Sig("import-addr", "D", "import $T from 0x1", <<>>), Sig("import-str", "D", "import $T from \"s\"", <<>>),
@@ -271,7 +272,10 @@ Full2 == {<<"bin" \o BinTable[i][1], x, y>> : i \in BinIdx, x \in OpChildren, y 
 Cond3 == {<<"cond", x, y, z>> : x \in OpChildren, y \in {c \in OpChildren : c[1] \in {"cond", "bin??", "bin||", "cast-as", "neg"}},
                                z \in {c \in OpChildren : c[1] \in {"cond", "bin??", "bin||", "cast-as", "move"}}}
 DeclForms == {Apply(c, 0, <<>>) : c \in {a \in AllSigs : a[2] \in Accepts("D")}}
-FullTerms == {<<"rootE", e>> : e \in Full2 \cup Cond3} \cup {<<g, x, y>> : g \in {"prog2", "prog2;"}, x \in DeclForms, y \in DeclForms}
+\* (`import X` without `from` is only used as the last declaration: after the imported identifier the parser
+\* expects `from`, `,` or the end of the declaration list and rejects `;`, `#`, ...)
+FullTerms == {<<"rootE", e>> : e \in Full2 \cup Cond3} \cup
+             {<<g, x, y>> : g \in {"prog2", "prog2;"}, x \in DeclForms \ {<<"import-bare">>}, y \in DeclForms}
 
 \* every ordered pair of binary-operator precedence levels occurs with the inner operator on either side
 Levels == {BinTable[i][2] : i \in BinIdx}
@@ -290,12 +294,19 @@ RootLen == Len(Root)
 CurSort == IF Len(sp) = 0 THEN "G" ELSE SlotSortOf[sp[Len(sp)]]
 Init == IF Family = "full" THEN sp = <<>> /\ leaf = "" /\ full \in FullTerms
         ELSE sp = Root /\ leaf = "" /\ full = <<>>
+\* language restriction: string templates do not nest (the lexer has one interpolation mode; the parser
+\* rejects a template inside an interpolation, so such programs are outside the property's quantifier)
+TemplateForms == {"tmpl1", "tmpl2", "str-tmplid"}
+InTemplate == \E k \in 1..Len(sp) : sp[k][1] \in TemplateForms
 Extend == /\ Family # "full" /\ leaf = "" /\ Len(sp) - RootLen < MaxDepth
-          /\ \E p \in CtorSlots[CurSort] : p[1] # "rootE" /\ sp' = Append(sp, p)
+          /\ \E p \in CtorSlots[CurSort] : p[1] # "rootE" /\ (InTemplate => p[1] \notin TemplateForms) /\ sp' = Append(sp, p)
           /\ UNCHANGED <<leaf, full>>
 \* below the first constructor only the core nullary forms close a spine (identifier, integer, nominal type, ...)
 Close  == /\ Family # "full" /\ leaf = "" /\ Len(sp) > 0
-          /\ \E a \in (IF Len(sp) - RootLen <= 1 THEN AtomsAll ELSE AtomsCore)[CurSort] : leaf' = a
+          /\ \E a \in (IF Len(sp) - RootLen <= 1 THEN AtomsAll ELSE AtomsCore)[CurSort] :
+                /\ InTemplate => a \notin TemplateForms
+                /\ ~(a = "import-bare" /\ sp[Len(sp)][1] \in {"prog2", "prog2;"} /\ sp[Len(sp)][2] = 1)
+                /\ leaf' = a
           /\ UNCHANGED <<sp, full>>
 Next == Extend \/ Close
 Spec == Init /\ [][Next]_vars
@@ -313,6 +324,7 @@ WellSorted(u, slot) ==
 FullOK == full # <<>> => WellSorted(full, "G")
 Emit == /\ leaf # "" => PrintT(ToJson([sp |-> sp, leaf |-> leaf]))
         /\ full # <<>> => PrintT(ToJson([full |-> full]))
-SigTable == PrintT(ToJson([sigs |-> AllSigs, defaults |-> [srt \in SlotSorts \ {"G"} |-> Default(srt)]]))
+SigTable == PrintT(ToJson([sigs |-> AllSigs, defaults |-> [srt \in SlotSorts \ {"G"} |-> Default(srt)],
+                             accepts |-> [srt \in SlotSorts |-> Accepts(srt)]]))
 ASSUME SigTable
 ====
